@@ -55,6 +55,8 @@ def main():
         tests_ok = len(passed) == 3 and [int(p[1]) for p in passed] in ([1, 0, 0], [0, 0, 0]) and int(passed[0][0]) >= 44
         target, filt = append_demo(wt, demo)
         pkg = target.split('/')[0]
+        if pkg == 'serde_amqp':
+            feat = ' --features derive'
         rc1, o1 = sh(env + 'cargo test -p %s%s --offline --lib %s 2>&1 | grep -E "^test |test result|error" | head -20' % (pkg, feat, filt), wt)
         fails_with = 'FAILED' in o1 or 'failed' in o1 and '0 failed' not in o1
         ran.append('with patch: demo => ' + ' | '.join(o1.strip().split('\n')[:6]))
@@ -70,8 +72,11 @@ def main():
     # run checks against a scratch copy of /repo with the patch applied (the same as `git -C /repo apply`, without
     # disturbing /repo while other work is going on)
     import tempfile
-    scratch = tempfile.mkdtemp(prefix='seedrepo_', dir='/tmp')
-    sh('rsync -a --exclude target --exclude .git /repo/ %s/' % scratch)
+    # fixed scratch path: the Kani / replay target directories keyed by REPO path are reused incrementally across seeds
+    scratch = '/tmp/seedrepo_work'
+    os.makedirs(scratch, exist_ok=True)
+    sh('rsync -a --delete --exclude target --exclude .git /repo/ %s/' % scratch)
+    sh('rm -rf %s/.git' % scratch)
     sh('git init -q && git add -A >/dev/null 2>&1', scratch)
     rc, o = sh('git apply %s' % os.path.join(out, 'patch.diff'), scratch)
     applied = rc == 0
@@ -90,7 +95,6 @@ def main():
                 alarms[pid] = dict(rc=rc, violations=[v.replace(evd, 'evidence') for v in viol], undecided=[u[:300] for u in und])
                 print(pid, rc, viol[:2], und[:1])
     finally:
-        shutil.rmtree(scratch, ignore_errors=True)
         shutil.rmtree(evd, ignore_errors=True)
     dest = os.path.join(ROOT, 'seeded', sid)
     os.makedirs(dest, exist_ok=True)
